@@ -6,15 +6,24 @@
 From Coq Require Import NArith Arith Lia Bool List FMapPositive.
 From RS.Gen Require Import Prelude GenConsts GenGuards.
 From RS.Model Require Import Field Tables Sched Codec Layout Machine.
+From RS.Proofs Require Import RateFacts.
 Import ListNotations.
 Local Open Scope N_scope.
+
+(* case analysis on every comparison and bitmap lookup on both sides: independent of how the Rust text
+   arranges its checks (else-if chain, early returns, inverted conditions) as long as the decisions agree *)
+Ltac guard_exec :=
+  cbv zeta;
+  repeat (first [ split_cmp
+                | match goal with |- context [pmem ?a ?b] => destruct (pmem a b) eqn:? end ];
+          cbn [negb andb orb]; try (exfalso; lia));
+  first [ reflexivity | exfalso; lia | congruence ].
 
 Theorem enc_add_guard x s :
   gen_enc_add (ew_K (e_work x)) (ew_recv (e_work x)) (ew_sb (e_work x)) (blen s) =
   match enc_add x s with inr e => GErr e | inl _ => GOk 0 end.
 Proof.
-  unfold gen_enc_add, enc_add. destruct (ew_recv (e_work x) =? ew_K (e_work x)); [reflexivity|].
-  destruct (negb (blen s =? ew_sb (e_work x))); reflexivity.
+  unfold gen_enc_add, enc_add. guard_exec.
 Qed.
 
 Section J.
@@ -24,7 +33,7 @@ Theorem enc_begin_guard ep x probes :
   gen_enc_begin (ew_K (e_work x)) (ew_recv (e_work x)) =
   match snd (enc_encode junk ep x probes) with RError e => GErr e | _ => GOk 0 end.
 Proof.
-  unfold gen_enc_begin, enc_encode. destruct (ew_recv (e_work x) =? ew_K (e_work x)); reflexivity.
+  unfold gen_enc_begin, enc_encode. guard_exec.
 Qed.
 
 Theorem dec_begin_guard ep x probes :
@@ -46,18 +55,14 @@ Theorem dec_add_original_guard x i s :
   gen_dec_add_original (dw_obase (d_work x)) (dw_K (d_work x)) (dw_sb (d_work x)) i (blen s) (pmem (dw_received (d_work x))) =
   match dec_add_original x i s with inr e => GErr e | inl _ => GOk 0 end.
 Proof.
-  unfold gen_dec_add_original, dec_add_original. destruct (dw_K (d_work x) <=? i); [reflexivity|].
-  cbv zeta. destruct (pmem (dw_received (d_work x)) (dw_obase (d_work x) + i)); [reflexivity|].
-  destruct (negb (blen s =? dw_sb (d_work x))); reflexivity.
+  unfold gen_dec_add_original, dec_add_original. guard_exec.
 Qed.
 
 Theorem dec_add_recovery_guard x i s :
   gen_dec_add_recovery (dw_rbase (d_work x)) (dw_R (d_work x)) (dw_sb (d_work x)) i (blen s) (pmem (dw_received (d_work x))) =
   match dec_add_recovery x i s with inr e => GErr e | inl _ => GOk 0 end.
 Proof.
-  unfold gen_dec_add_recovery, dec_add_recovery. destruct (dw_R (d_work x) <=? i); [reflexivity|].
-  cbv zeta. destruct (pmem (dw_received (d_work x)) (dw_rbase (d_work x) + i)); [reflexivity|].
-  destruct (negb (blen s =? dw_sb (d_work x))); reflexivity.
+  unfold gen_dec_add_recovery, dec_add_recovery. guard_exec.
 Qed.
 
 (* ---------- accessors: recovery(i) and restored_original(i) ---------- *)
